@@ -117,6 +117,10 @@ def bisection_progress(fn, R, rule):
                 elif r is not None and r.get("k") == "DeclRefExpr" and r["d"] == m:
                     # plain `bound = mid` is progress only for the upper bound, i.e. on the branch where the key is
                     # below the probed element: orient the innermost guard as  key OP element
+                    if _gap_loop(loop, an, bn):
+                        # `while (hi - lo > 1)`: the midpoint lies strictly between the bounds
+                        R.ob(rule, "%s loop bound update %s = %s (gap >= 2 loop)" % (fn.name, l["n"], expr_text(r)), True)
+                        continue
                     op = _key_op(fn, n)
                     if op is None:
                         raise AnalysisBroken("%s: cannot orient the guard of `%s = %s` in %s" % (rule, l["n"], expr_text(r), fn.name))
@@ -131,6 +135,25 @@ def bisection_progress(fn, R, rule):
     return found
 
 
+def _gap_loop(loop, an, bn):
+    """loop continues only while the two bounds are at least 2 apart"""
+    if loop.get("k") == "WhileStmt":
+        cond = loop["c"][0]
+    elif loop.get("k") == "ForStmt":
+        cond = loop["c"][1]
+    else:
+        return False   # do-while tests after the first iteration
+    if cond is None:
+        return False
+    op, a, b = norm_cond(cond, True)
+    names = ({an, bn})
+    forms = set()
+    for lo, hi in ((an, bn), (bn, an)):
+        forms |= {(">", "(%s - %s)" % (hi, lo), "1"), (">=", "(%s - %s)" % (hi, lo), "2"),
+                  ("<", "(%s + 1)" % lo, hi), (">", hi, "(%s + 1)" % lo)}
+    return (op, a, b) in forms
+
+
 def _key_op(fn, n):
     """innermost enclosing if-condition `key OP elem` (key = a function parameter), oriented with the key on the left"""
     fn.nodes
@@ -138,8 +161,15 @@ def _key_op(fn, n):
     cur = n
     while cur is not None:
         par = fn.parent(cur)
-        if par is not None and par.get("k") == "IfStmt" and _contains(par["c"][1], cur):
+        if par is not None and par.get("k") == "IfStmt" and (_contains(par["c"][1], cur) or
+                                                             (len(par["c"]) > 2 and par["c"][2] is not None and _contains(par["c"][2], cur)
+                                                              and par["c"][2].get("k") != "IfStmt")):
+            neg = not _contains(par["c"][1], cur)
             cond = strip(par["c"][0])
+            if neg and cond is not None and cond.get("k") == "BinaryOperator" and cond.get("op") in REL:
+                from core import NEG
+                cond = dict(cond)
+                cond["op"] = NEG[cond["op"]]
             if cond is not None and cond.get("k") == "BinaryOperator" and cond.get("op") in REL:
                 a, b = strip(cond["c"][0]), strip(cond["c"][1])
                 if a is not None and a.get("k") == "DeclRefExpr" and a["d"] in pnames:
